@@ -13,7 +13,7 @@ RES=$("$HERE/bin/vcgo" check -prop E00 -repo "$HERE/selftest/engine/src" -verif 
 rm -rf "$HERE/selftest/engine/out"
 echo "$RES" | python3 -c '
 import re, sys, json
-panics = {"divByZero", "indexOut", "nilMapWrite", "nilDeref", "recoverInHelper", "rePanic"}
+panics = {"divByZero", "indexOut", "nilMapWrite", "nilDeref", "recoverInHelper", "rePanic", "indexLoopFromMinusOne"}
 # known incompleteness (a true no-panic claim the engine cannot establish): a panic raised inside a deferred call while
 # panicking, recovered by an outer deferred call
 incomplete = {("nestedPanic", "nopanic")}
